@@ -120,6 +120,11 @@ func (c *Config) getCacheTTL(resp *TokenInfo) time.Duration {
 		},
 		func() time.Duration { return 0 })
 
+	// if the token expires too soon to be cached, the configured ttl must not extend its lifetime
+	if !resp.Expiry.IsZero() && tokenEndpointResponseTTL == 0 {
+		return 0
+	}
+
 	configuredTTL := x.IfThenElseExec(c.TTL != nil,
 		func() time.Duration { return *c.TTL },
 		func() time.Duration { return 0 })
